@@ -78,6 +78,15 @@ class Value:
         return f"Value(#{self.attempt},{self.klass})"
 
 
+class AwaitableValue(Value):
+    """a result that is itself awaitable (a handle to further work): the library must hand it
+    over as it is, never await it"""
+
+    def __await__(self):
+        raise AssertionError("the library awaited the operation's result object")
+        yield  # pragma: no cover
+
+
 class FalsyValue(Value):
     """a result that is falsy and empty, like 0, "" or []"""
 
@@ -251,6 +260,8 @@ class Env:
         out = sc["out"]
         self.none_pending = None
         vcls = FalsyValue if self.flavours and n % 2 == 1 else Value
+        if self.flavours and self.is_async and n % 2 == 0:
+            vcls = AwaitableValue
         if out == "ok":
             v = vcls(n, None, NONE)
             self.values.append(v)
@@ -273,7 +284,7 @@ class Env:
             ecls = OpError
             if self.flavours:
                 fl = [c for c in exc_flavours() if self.flavours == "all" or c.__name__ != "OpCircuitOpen"]
-                ecls = fl[(n + self.call_index) % len(fl)]
+                ecls = fl[(n + self.call_index + len(self.q["invoke"])) % len(fl)]
             exc = ecls(n, sc["k"], sc["ra"])
             if isinstance(exc, TimeoutError):
                 # as raised by an inner asyncio.timeout() / wait_for(): chained to a CancelledError
